@@ -1,5 +1,34 @@
 //! Line-protocol harness over the real `wow_world_messages` / `wow_login_messages` crates.
 use std::io::{BufRead, Write};
+use std::alloc::{GlobalAlloc, Layout, System};
+use std::sync::atomic::{AtomicUsize, Ordering};
+
+/// Counting allocator (C03): largest single request and total bytes requested since the last reset.
+pub struct Counting;
+pub static MAX_REQ: AtomicUsize = AtomicUsize::new(0);
+pub static TOTAL_REQ: AtomicUsize = AtomicUsize::new(0);
+unsafe impl GlobalAlloc for Counting {
+    unsafe fn alloc(&self, l: Layout) -> *mut u8 {
+        MAX_REQ.fetch_max(l.size(), Ordering::Relaxed);
+        TOTAL_REQ.fetch_add(l.size(), Ordering::Relaxed);
+        System.alloc(l)
+    }
+    unsafe fn dealloc(&self, p: *mut u8, l: Layout) {
+        System.dealloc(p, l)
+    }
+    unsafe fn alloc_zeroed(&self, l: Layout) -> *mut u8 {
+        MAX_REQ.fetch_max(l.size(), Ordering::Relaxed);
+        TOTAL_REQ.fetch_add(l.size(), Ordering::Relaxed);
+        System.alloc_zeroed(l)
+    }
+    unsafe fn realloc(&self, p: *mut u8, l: Layout, n: usize) -> *mut u8 {
+        MAX_REQ.fetch_max(n, Ordering::Relaxed);
+        TOTAL_REQ.fetch_add(n, Ordering::Relaxed);
+        System.realloc(p, l, n)
+    }
+}
+#[global_allocator]
+static GLOBAL: Counting = Counting;
 
 mod frame;
 thread_local! { pub static LAST_PANIC: std::cell::RefCell<String> = std::cell::RefCell::new(String::new()); }
@@ -31,6 +60,13 @@ fn handle(ws: &[&str]) -> String {
         ["rframe", exp, dir, api, hdr, len, fill, extra] => frame::rframe(exp, dir, api, hdr, len.parse().unwrap_or(0), fill.parse().unwrap_or(0), extra.parse().unwrap_or(0)),
         ["seq", exp, dir, api, lens] => frame::seq(exp, dir, api, lens),
         ["codec", lib, dir, hex] => codec::codec(lib, dir, hex),
+        ["dec", lib, dir, hex] => {
+            let Some(bytes) = unhex(hex) else { return "bad-op".into() };
+            MAX_REQ.store(0, Ordering::Relaxed);
+            TOTAL_REQ.store(0, Ordering::Relaxed);
+            let r = std::panic::catch_unwind(|| codec::decode_only(lib, dir, &bytes)).unwrap_or_else(|_| format!("abort read-panic {}", last_panic()));
+            format!("{r} maxalloc={} totalalloc={}", MAX_REQ.load(Ordering::Relaxed), TOTAL_REQ.load(Ordering::Relaxed))
+        }
         _ => "bad-op".into(),
     }
 }
